@@ -45,7 +45,9 @@ RULE = (
     "shape as tuple/list/ndarray of numpy ints; flags as np.bool_ and 1/0; the reference converts with float()/int()/bool()) and "
     "falsy-but-valid values (an extra coordinate that is 0 everywhere, weights exactly 1, a data component of zeros); large calls with "
     "130 000 / 230 000 / 262 145 points (never a multiple of 100 000) in thousands of blocks of very different populations for "
-    "sum / mean / median, judged like every other call down to the last points of the input. Non-trivial = at least 2 occupied blocks, a block with >= 2 members whose data differ, and an empty block "
+    "sum / mean / median, judged like every other call down to the last points of the input; drop_coords=False with 11..16 coordinate arrays (extra k = 1000*k "
+    "+ noise; controls with exactly 10, 3 and 4 arrays); np.average / weighted median with weights exactly 0.0 in all components on points ON "
+    "the bounding box of the cloud, region not given (control: given), every block keeping a positive weight. Non-trivial = at least 2 occupied blocks, a block with >= 2 members whose data differ, and an empty block "
     "present; distinct = hash of (coordinates, data, weights, configuration)."
 )
 ASSUMPTIONS = [
@@ -91,7 +93,12 @@ FLOORS = {
         "class:reduction:callable:numpy.ptp": 40, "class:reduction:callable:numpy.prod": 35,
         "class:reduction:callable:user.std": 36, "class:reduction:callable:user.var": 34,
         "class:reduction:callable:user.mean": 30, "single_member_blocks_judged_for_spread_statistics(expected 0, not NaN)": 1100,
-        "class:more_than_100000_points": 2,
+        "class:more_than_100000_points": 1, "class:coordinate_arrays:11_or_more(drop_coords=False)": 19,
+        "class:coordinate_arrays:exactly_10(drop_coords=False)": 2,
+        "class:weights_exactly_0_in_all_components_on_some_points": 25,
+        "class:zero_weight_point_on_the_bounding_box:region_inferred": 18,
+        "class:zero_weight_point_on_the_bounding_box:region_given": 4,
+        "zero_weight_border_calls:points_on_the_box_with_weight_0": 100,
     },
     "thorough": {
         "eval:filter_layout": 16800, "eval:labels_vs_reference_geometry": 16800, "eval:params_unchanged_by_filter": 16900,
@@ -127,7 +134,13 @@ FLOORS = {
         "class:reduction:callable:numpy.ptp": 600, "class:reduction:callable:numpy.prod": 600,
         "class:reduction:callable:user.std": 610, "class:reduction:callable:user.var": 640,
         "class:reduction:callable:user.mean": 630,
-        "single_member_blocks_judged_for_spread_statistics(expected 0, not NaN)": 19500, "class:more_than_100000_points": 12,
+        "single_member_blocks_judged_for_spread_statistics(expected 0, not NaN)": 19500, "class:more_than_100000_points": 7,
+        "class:coordinate_arrays:11_or_more(drop_coords=False)": 310,
+        "class:coordinate_arrays:exactly_10(drop_coords=False)": 52,
+        "class:weights_exactly_0_in_all_components_on_some_points": 380,
+        "class:zero_weight_point_on_the_bounding_box:region_inferred": 290,
+        "class:zero_weight_point_on_the_bounding_box:region_given": 94,
+        "zero_weight_border_calls:points_on_the_box_with_weight_0": 1500,
     },
 }
 JOBS = {"quick": 1, "thorough": 16}
@@ -137,8 +150,8 @@ CALLS_PER_CASE = 8
 
 def plan(tier):
     if tier == "quick":
-        return collections.OrderedDict(random=140, edges=32, series=42, tiny=10, refused=3, nested=8, reuse=24, inplace=14, reconfigure=30, spellings=40, large=2)
-    return collections.OrderedDict(random=2100, edges=480, series=640, tiny=120, refused=14, nested=100, reuse=360, inplace=210, reconfigure=450, spellings=600, large=18)
+        return collections.OrderedDict(random=140, edges=32, series=42, tiny=10, refused=3, nested=8, reuse=24, inplace=14, reconfigure=30, spellings=40, many_coordinates=10, zero_weights=8, large=2)
+    return collections.OrderedDict(random=2100, edges=480, series=640, tiny=120, refused=14, nested=100, reuse=360, inplace=210, reconfigure=450, spellings=600, many_coordinates=150, zero_weights=120, large=18)
 
 
 def value_range(values):
@@ -388,6 +401,47 @@ def _one_call(run, rng, verde, layout=None, weighted=None, edges=False, npoints=
             "easting": east, "northing": north, "data": data, "weights": weights, "result_coordinates": result[0], "result_data": result[1]}
 
 
+def _many_coordinates(run, rng, verde):
+    """drop_coords=False with 11..16 coordinate arrays (controls: exactly 10, 3 or 4): returned coordinate i is the reduction of input coordinate i."""
+    east, north = blk.make_points(rng, n=int(rng.integers(8, 50)))
+    kwargs = blk.make_blocks(rng, east, north)
+    n_arrays = int(rng.choice([3, 4, 10, 11, 12, 13, 14, 15, 16], p=[.06, .06, .12, .2, .14, .12, .1, .1, .1]))
+    coords = blk.many_coordinates(rng, east, north, n_arrays)
+    kwargs["drop_coords"] = bool(rng.random() < 0.12)
+    kwargs["center_coordinates"] = bool(rng.random() < 0.4)
+    weighted = bool(rng.random() < 0.3)
+    pool = WEIGHTED if weighted else UNWEIGHTED
+    reduction = pool[int(rng.integers(0, len(pool)))]
+    if reduction is np.prod:
+        reduction = np.median
+    ncomp = int(rng.choice([1, 2]))
+    data = _fields(rng, east, north, ncomp)
+    weights = _weights(rng, east.size, ncomp) if weighted else None
+    layout = str(rng.choice(["1d", "1d", "2d", "series", "readonly"]))
+    coords_in = blk.wrap_all(coords, layout, rng)
+    data_in = blk.wrap_all(data, layout, rng)
+    with warnings.catch_warnings():
+        warnings.simplefilter("ignore")
+        out_coords, _ = verde.BlockReduce(reduction, **kwargs).filter(
+            tuple(coords_in), data_in[0] if ncomp == 1 else tuple(data_in),
+            None if weights is None else (blk.wrap_all(weights, layout, rng)[0] if ncomp == 1 else tuple(blk.wrap_all(weights, layout, rng))))
+    return {"coordinate_arrays_given": n_arrays, "reduction": getattr(reduction, "__name__", "?"), "kwargs": kwargs,
+            "first_value_of_each_input_coordinate": [float(c[0]) for c in coords], "returned": [np.asarray(c)[:3] for c in out_coords]}
+
+
+def _zero_weight_border(run, rng, verde):
+    """np.average / weighted median with weights exactly 0.0 (all components) on points ON the bounding box of the cloud; region not given (control: given)."""
+    ncomp = int(rng.choice([1, 2]))
+    east, north, kwargs, weights, on_box = blk.zero_weight_border_case(rng, ncomp, region_given=bool(rng.random() < 0.25))
+    reduction = np.average if rng.random() < 0.7 else blk.weighted_median
+    kwargs["center_coordinates"] = bool(rng.random() < 0.4)
+    data = _fields(rng, east, north, ncomp)
+    run.count("zero_weight_border_calls:points_on_the_box_with_weight_0", on_box)
+    with warnings.catch_warnings():
+        warnings.simplefilter("ignore")
+        verde.BlockReduce(reduction, **kwargs).filter((east, north), data[0] if ncomp == 1 else tuple(data), weights[0] if ncomp == 1 else tuple(weights))
+
+
 def _large_call(run, rng, verde, index):
     """
     More than 100 000 points in one call (130 000 / 230 000 / 262 145: never a multiple of 100 000), non-constant data, for
@@ -538,6 +592,15 @@ def run_case(run, tap, stream, index, rng):
 
     if stream == "large":
         _large_call(run, rng, verde, index)
+        return
+    if stream == "many_coordinates":
+        for _ in range(CALLS_PER_CASE):
+            info = _many_coordinates(run, rng, verde)
+        run.sample("eleven_or_more_coordinate_arrays", info)
+        return
+    if stream == "zero_weights":
+        for _ in range(CALLS_PER_CASE):
+            _zero_weight_border(run, rng, verde)
         return
     if stream == "spellings":
         for _ in range(CALLS_PER_CASE):
